@@ -2,7 +2,7 @@ SPECIFICATION EmitSpec
 CONSTANTS
   L = {"a", "b"}
   ParamKinds = {"opq", "opqlt"}
-  RetKinds = {"ropqlt_e", "rokerr_e", "ropqlt"}
+  RetKinds = {"ropqlt_e", "rokerr_e", "rost1_e", "reost1_e", "ropqlt"}
   SelfKinds = {"ref"}
   NParams = {1}
 INVARIANTS Emit
